@@ -16,7 +16,11 @@ static int uf_gen_calls, uf_sha_calls, uf_sha_cap;
 #endif
 
 /* a replaced but correct compression function: different code address, same function */
-static void alt_compress(uint32_t *s, const unsigned char *blocks, size_t n_blocks) { while (n_blocks--) { secp256k1_sha256_transform_impl(s, blocks); blocks += 64; } }
+/* (its documented contract: "processes one or more contiguous 64-byte message blocks" -- a replacement need not handle n_blocks == 0) */
+static void alt_compress(uint32_t *s, const unsigned char *blocks, size_t n_blocks) {
+    __CPROVER_assert(n_blocks >= 1, "the pluggable compression function is only ever invoked with one or more blocks (its documented contract)");
+    while (n_blocks--) { secp256k1_sha256_transform_impl(s, blocks); blocks += 64; }
+}
 static int d1, d2;
 static void two_ctx(secp256k1_context *c1, secp256k1_context *c2) {
     verif_illegal_count = verif_error_count = 0; uf_gen_calls = 0;   /* statics are havocked by --nondet-static */
@@ -145,6 +149,14 @@ void harness_static_ctx(void) {
     __CPROVER_assert(r2 == 0 && verif_illegal_count == 1, "ecdsa_sign on the static context: one illegal callback, failure");
     verif_illegal_count = 0; r2 = secp256k1_schnorrsig_sign32(&c2, sg2, in.a32, &in.kp, NULL);
     __CPROVER_assert(r2 == 0 && verif_illegal_count == 1, "schnorrsig_sign32 on the static context: one illegal callback, failure");
+    { secp256k1_xonly_pubkey xp[1]; unsigned char agg[64]; secp256k1_pedersen_commitment pc; secp256k1_keypair kp2;
+      memcpy(&xp[0], &in.xpk, sizeof(xp[0])); memcpy(agg, in.sig64, 64);
+      verif_illegal_count = 0; r2 = secp256k1_schnorrsig_aggverify(&c2, xp, in.a32, 1, agg, 64);
+      __CPROVER_assert(r2 == 0 && verif_illegal_count == 1, "schnorrsig_aggverify on the static context: one illegal callback, failure");
+      verif_illegal_count = 0; r2 = secp256k1_pedersen_commit(&c2, &pc, in.b32, in.v, &in.gen);
+      __CPROVER_assert(r2 == 0 && verif_illegal_count == 1, "pedersen_commit on the static context: one illegal callback, failure");
+      verif_illegal_count = 0; r2 = secp256k1_keypair_create(&c2, &kp2, in.b32);
+      __CPROVER_assert(r2 == 0 && verif_illegal_count == 1, "keypair_create on the static context: one illegal callback, failure"); }
     verif_illegal_count = 0; r2 = secp256k1_context_randomize(&c2, in.c32);
     __CPROVER_assert(r2 == 0 && verif_illegal_count == 1, "context_randomize on the static context: one illegal callback, failure");
     (void)g1; (void)sg1; __CPROVER_assert(!r1, "witness: proper context creates keys");
